@@ -19,8 +19,8 @@ ASSUMPTIONS = [
     'pre-state: the memory is an arbitrary array (solver variable); addresses, data and enables are variables: one step covers every history',
     'two ENABLED writes in one cycle are assumed to target distinct addresses (same-address double write is documented as undefined)',
     'CompiledSimulation: initial contents are concrete (baked into the C text): checked by BMC from boundary contents; its hash-map helper '
-    'text (insert/lookup) is given its own meaning by vf/chelper.py and checked against a functional map over three symbolic inserts + '
-    'lookup (keys < 2^16, bucket chains <= 3, unwinding assertions discharged); elsewhere it is modelled as a total map',
+    'text (insert/lookup) is given its own meaning by vf/chelper.py and checked against a functional map over a history of three symbolic inserts with a '
+    'lookup before and after each (keys < 2^16, bucket chains <= 3, unwinding assertions discharged, value storage by pointer); elsewhere it is modelled as a total map',
     'ROM: list / dict (with and without pad_with_zeros) / function data; holes raise PyrtlError exactly when documented',
     'stubs/merge points of vf/simdrv.py',
 ]
@@ -320,15 +320,15 @@ def run_chelper(case, ob, site):
     block, bw = helper_design(case['limbs'])
     cm = CompiledModel(block)
     try:
-        goal, assume, unwinding, hv = chelper.map_obligation(cm.text, case['limbs'], nins=3, unroll=4)
+        goal, assume, unwinding, hv = chelper.map_obligation(cm.text, case['limbs'], nins=3, unroll=4, valbits=bw)
     except chelper.CHelperError as e:
         raise sym.HarnessError('helper text outside the recognised subset: %s' % e)
 
     def extract(m):
         return {'keys': [m.eval(k, model_completion=True).as_long() for k in hv['keys']],
                 'vals': [m.eval(x, model_completion=True).as_long() for x in hv['vals']],
-                'q': m.eval(hv['q'], model_completion=True).as_long()}
-    ob.prove('helper:lookup-after-3-inserts==functional-map', goal, assume, None, site=site + ':map', extract=extract, vacuity=True)
+                'qs': [m.eval(x, model_completion=True).as_long() for x in hv['qs']]}
+    ob.prove('helper:lookups-interleaved-with-3-inserts==functional-map', goal, assume, None, site=site + ':map', extract=extract, vacuity=True)
     for i, u in enumerate(unwinding):
         ob.prove('helper:unwinding-assertion-%d' % i, z3.Not(u), assume, None, site=site + ':unwinding')
     ob.paths += 1
@@ -358,15 +358,24 @@ def replay(cex):
         sim = pyrtl.CompiledSimulation(block=block)
         ref = {}
         mask = (1 << bw) - 1
-        for k, x in zip(cex['keys'], cex['vals']):
-            x = (x & mask) or 1          # a non-zero word, so that a lost entry shows against the default 0
-            sim.step({'wa': k & 0xffff, 'wd': x, 'we': 1, 'ra': 0})
-            ref[k & 0xffff] = x
         bad = []
-        for a in sorted(set(list(ref) + [cex['q'] & 0xffff])):
+        # the history of the obligation: each step reads (lookup) and then writes (insert)
+        steps = list(zip(cex['qs'], cex['keys'] + [None], cex['vals'] + [None]))
+        for n, (q, k, x) in enumerate(steps):
+            q &= 0xffff
+            if k is None:
+                sim.step({'wa': 0, 'wd': 0, 'we': 0, 'ra': q})
+            else:
+                sim.step({'wa': k & 0xffff, 'wd': x & mask, 'we': 1, 'ra': q})
+            if sim.inspect('rd') != ref.get(q, 0):
+                bad.append('step %d: after writing %r the read of address %d returns %d, expected %d'
+                           % (n, ref, q, sim.inspect('rd'), ref.get(q, 0)))
+            if k is not None:
+                ref[k & 0xffff] = x & mask
+        for a in sorted(ref):
             sim.step({'wa': 0, 'wd': 0, 'we': 0, 'ra': a})
             if sim.inspect('rd') != ref.get(a, 0):
-                bad.append('after writing %r: read of address %d returns %d, expected %d' % (ref, a, sim.inspect('rd'), ref.get(a, 0)))
+                bad.append('finally: read of address %d returns %d, expected %d' % (a, sim.inspect('rd'), ref.get(a, 0)))
         return bool(bad), '\n'.join(bad)
     block0 = designs.build(case)
     be = case['backend']
